@@ -622,3 +622,284 @@ macro_rules! rcv_inject {
         }
     };
 }
+
+// ---- instances generated by the driver ----
+snd_inject!(c09_use_any_timeout, 1, 2, 0, 3, 1, [(3, 99999, 0, -1)], 99999, 24, 0, 65535, false, false, 6);
+
+/// Test generated for harness `worker::verif_harness::c09_use_any_timeout` 
+///
+/// Check for `cover`: "replay seed: an acknowledged timeout of 2^63 s or more"
+///
+/// # Warning
+///
+/// Concrete playback tests combined with stubs or contracts is highly
+/// experimental, and subject to change.
+///
+/// The original harness has stubs which are not applied to this test.
+/// This may cause a mismatch of non-deterministic values if the stub
+/// creates any non-deterministic value.
+/// The execution path may also differ, which can be used to refine the stub
+/// logic.
+
+#[test]
+fn kani_concrete_playback_c09_use_any_timeout_16305368308539611422_0() {
+    let concrete_vals: Vec<Vec<u8>> = vec![
+        // 255
+        vec![255],
+        // 255
+        vec![255],
+        // 255
+        vec![255],
+        // 255
+        vec![255],
+        // 255
+        vec![255],
+        // 255
+        vec![255],
+        // 255
+        vec![255],
+        // 255
+        vec![255],
+        // 255
+        vec![255],
+        // 255
+        vec![255],
+        // 255
+        vec![255],
+        // 255
+        vec![255],
+        // 255
+        vec![255],
+        // 255
+        vec![255],
+        // 255
+        vec![255],
+        // 255
+        vec![255],
+        // 65535
+        vec![255, 255],
+        // 18446744073709551615ul
+        vec![255, 255, 255, 255, 255, 255, 255, 255],
+    ];
+    kani::concrete_playback_run(concrete_vals, c09_use_any_timeout);
+}
+
+
+/// Test generated for harness `worker::verif_harness::c09_use_any_timeout` 
+///
+/// Check for `cover`: "witness: DATA sent after the window advanced"
+///
+/// # Warning
+///
+/// Concrete playback tests combined with stubs or contracts is highly
+/// experimental, and subject to change.
+///
+/// The original harness has stubs which are not applied to this test.
+/// This may cause a mismatch of non-deterministic values if the stub
+/// creates any non-deterministic value.
+/// The execution path may also differ, which can be used to refine the stub
+/// logic.
+
+#[test]
+fn kani_concrete_playback_c09_use_any_timeout_15311406853822537874_1() {
+    let concrete_vals: Vec<Vec<u8>> = vec![
+        // 255
+        vec![255],
+        // 255
+        vec![255],
+        // 255
+        vec![255],
+        // 255
+        vec![255],
+        // 255
+        vec![255],
+        // 255
+        vec![255],
+        // 255
+        vec![255],
+        // 255
+        vec![255],
+        // 255
+        vec![255],
+        // 255
+        vec![255],
+        // 255
+        vec![255],
+        // 255
+        vec![255],
+        // 255
+        vec![255],
+        // 255
+        vec![255],
+        // 255
+        vec![255],
+        // 255
+        vec![255],
+        // 32770
+        vec![2, 128],
+        // 192ul
+        vec![192, 0, 0, 0, 0, 0, 0, 0],
+        // 1
+        vec![1],
+        // 192ul
+        vec![192, 0, 0, 0, 0, 0, 0, 0],
+        // 0
+        vec![0, 0, 0, 0],
+        // 32770
+        vec![2, 128],
+        // 255
+        vec![255],
+        // 255
+        vec![255],
+        // 255
+        vec![255],
+    ];
+    kani::concrete_playback_run(concrete_vals, c09_use_any_timeout);
+}
+
+
+/// Test generated for harness `worker::verif_harness::c09_use_any_timeout` 
+///
+/// Check for `cover`: "witness: event script consumed, cut reached"
+///
+/// # Warning
+///
+/// Concrete playback tests combined with stubs or contracts is highly
+/// experimental, and subject to change.
+///
+/// The original harness has stubs which are not applied to this test.
+/// This may cause a mismatch of non-deterministic values if the stub
+/// creates any non-deterministic value.
+/// The execution path may also differ, which can be used to refine the stub
+/// logic.
+
+#[test]
+fn kani_concrete_playback_c09_use_any_timeout_14912575575079441949_2() {
+    let concrete_vals: Vec<Vec<u8>> = vec![
+        // 255
+        vec![255],
+        // 255
+        vec![255],
+        // 255
+        vec![255],
+        // 255
+        vec![255],
+        // 255
+        vec![255],
+        // 255
+        vec![255],
+        // 255
+        vec![255],
+        // 255
+        vec![255],
+        // 255
+        vec![255],
+        // 255
+        vec![255],
+        // 255
+        vec![255],
+        // 255
+        vec![255],
+        // 255
+        vec![255],
+        // 255
+        vec![255],
+        // 255
+        vec![255],
+        // 255
+        vec![255],
+        // 1
+        vec![1, 0],
+        // 9223372036854775799ul
+        vec![247, 255, 255, 255, 255, 255, 255, 127],
+        // 1
+        vec![1],
+        // 448ul
+        vec![192, 1, 0, 0, 0, 0, 0, 0],
+        // 0
+        vec![0, 0, 0, 0],
+        // 0
+        vec![0, 0],
+        // 255
+        vec![255],
+        // 255
+        vec![255],
+        // 255
+        vec![255],
+    ];
+    kani::concrete_playback_run(concrete_vals, c09_use_any_timeout);
+}
+
+
+/// Test generated for harness `worker::verif_harness::c09_use_any_timeout` 
+///
+/// Check for `assertion`: "This is a placeholder message; Kani doesn't support message formatted at runtime"
+///
+/// # Warning
+///
+/// Concrete playback tests combined with stubs or contracts is highly
+/// experimental, and subject to change.
+///
+/// The original harness has stubs which are not applied to this test.
+/// This may cause a mismatch of non-deterministic values if the stub
+/// creates any non-deterministic value.
+/// The execution path may also differ, which can be used to refine the stub
+/// logic.
+
+#[test]
+fn kani_concrete_playback_c09_use_any_timeout_8370741282332295582_3() {
+    let concrete_vals: Vec<Vec<u8>> = vec![
+        // 2
+        vec![2],
+        // 2
+        vec![2],
+        // 255
+        vec![255],
+        // 255
+        vec![255],
+        // 255
+        vec![255],
+        // 255
+        vec![255],
+        // 255
+        vec![255],
+        // 255
+        vec![255],
+        // 255
+        vec![255],
+        // 255
+        vec![255],
+        // 255
+        vec![255],
+        // 255
+        vec![255],
+        // 255
+        vec![255],
+        // 255
+        vec![255],
+        // 255
+        vec![255],
+        // 255
+        vec![255],
+        // 32768
+        vec![0, 128],
+        // 9223372036854775807ul
+        vec![255, 255, 255, 255, 255, 255, 255, 127],
+        // 1
+        vec![1],
+        // 511ul
+        vec![255, 1, 0, 0, 0, 0, 0, 0],
+        // 999999999
+        vec![255, 201, 154, 59],
+        // 32770
+        vec![2, 128],
+        // 255
+        vec![255],
+        // 255
+        vec![255],
+        // 255
+        vec![255],
+    ];
+    kani::concrete_playback_run(concrete_vals, c09_use_any_timeout);
+}
+
